@@ -70,7 +70,7 @@ UniqueKeepOrder(s, seen) ==
   ELSE <<Head(s)>> \o UniqueKeepOrder(Tail(s), seen \cup {Head(s)})
 
 SimplexSearch(m, pts, ix, isAll) ==
-  LET inside == [c \in DOMAIN ix |-> [n \in DOMAIN pts |-> InClosedSimplex(CellPts(m, ix[c]), pts[n])]]   \* X >= -eps
+  LET inside == [c \in DOMAIN ix |-> [n \in DOMAIN pts |-> InClosedSimplex(CellPts(m, ix[c]), pts[n])]]   \* X >= -1e3 eps (exact test; slack << 2^-28)
       found(n) == \E c \in DOMAIN ix : inside[c][n]
   IN IF \A n \in DOMAIN pts : found(n)                                  \* inside.max(axis=0).all()
      THEN [err |-> "", fallback |-> isAll,
@@ -99,12 +99,17 @@ SplitMesh(m) ==
    t |-> [c \in 1..(Len(tb) * nt) |->
             LET s == ((c - 1) \div nt) + 1  k == ((c - 1) % nt) + 1 IN Sub(m.t[k], tb[s])]]
 
-\* A point is ROBUSTLY located if no floating-point round-off can influence the code's inside test for it:
-\* it is strictly interior to one of the simplices the code tests (barycentric coordinates >= 2^-31, far above
-\* round-off), or it lies in a closed simplex whose determinant is a power of two (the inverse affine map and
-\* the reference coordinates of a dyadic point are then computed exactly in binary floating point).  Points
-\* that lie only on the boundary of simplices with other determinants are subject to the round-off of the
-\* inverse map, which can exceed the machine-eps slack of the test (known finding KF-C14-finder-eps-roundoff).
+\* The code's inside test is X >= -1e3 * machine eps = -2^-42 in reference coordinates (fix 950586a; before it
+\* the slack was one machine eps, smaller than the round-off of the inverse map, and points exactly on boundary
+\* facets of cells with a non-power-of-two determinant could be declared outside).  The transcription uses the
+\* exact closed-simplex test: on the integer / dyadic universes every non-zero barycentric coordinate is at
+\* least 1/|det| >= 2^-28 in size, so the slack (2^-42) and the round-off (~2^-50) can neither admit a point
+\* outside a simplex nor reject a point of the closed simplex.  The RaisesOutside margin (2^-10, GeomLocate
+\* MarginBits) is far above the slack: no demand to raise is ever made for a point the slack could admit.
+\* A point is ROBUSTLY located if not even a one-eps slack could lose it: strictly interior to a simplex the
+\* code tests, or in a closed simplex with power-of-two determinant (exact float arithmetic).  Both
+\* PointsOfTheDomainAreFound (robust points) and BoundaryPointsAreFound (all points of the closed mesh) must
+\* hold on the current tree; the split tells the two mechanisms apart when one of them regresses.
 IsPow2(n) == n >= 1 /\ \E k \in 0..30 : n = 2 ^ k
 StrictlyInsideSimplex(V, x) ==
   LET d0 == OrientV(V) IN d0 # 0 /\ \A i \in DOMAIN V : Sgn(d0) * OrientV([V EXCEPT ![i] = x]) > 0
